@@ -30,3 +30,15 @@ func Good_E5Rstorage_propagated(id string) (string, error) {
 	}
 	return v, nil
 }
+
+// the seeded C10 shape: the first storage error is overwritten by a second call before anyone looks at it
+func Bad_E5Rstorage_overwritten(id string) (string, error) {
+	v, err := ctlStorageCall(id)
+	if id != "x" {
+		v, err = ctlStorageCall(id + "2")
+	}
+	if err != nil {
+		return "", err
+	}
+	return v, nil
+}
